@@ -486,15 +486,20 @@ Lemma vleb_trans a b c : vleb a b = true -> vleb b c = true -> vleb a c = true.
 Proof. unfold vleb. rewrite !Z.leb_le. lia. Qed.
 
 Lemma option_eq_iff {A} (x y : option A) : (forall v, x = Some v <-> y = Some v) -> x = y.
-Proof. intros H. destruct x as [a|], y as [b|]; try done; [by apply H|by apply H|symmetry; by apply H]. Qed.
+Proof.
+  intros H. destruct x as [a|], y as [b|]; try done.
+  - by apply H.
+  - assert (None = Some a) by (by apply H). done.
+  - assert (None = Some b) by (by apply H). done.
+Qed.
 
 Lemma s_populate_spec (m : table) : key_ok m -> s_wf (s_populate m) /\ s_rev (s_populate m) = rb <$> m.
 Proof.
   intros Hk. unfold s_populate. set (rs := sorted_rows m).
   assert (Hnd : NoDup (map rk rs)) by (by apply sorted_rows_keys_nodup).
   assert (Hfst : NoDup ((map (fun r => (rk r, rb r)) rs).*1)).
-  { assert (E : (map (fun r => (rk r, rb r)) rs).*1 = map rk rs) by (unfold fmap, list_fmap; by rewrite map_map).
-    unfold fmap, list_fmap in E |- *. by rewrite map_map. }
+  { replace ((map (fun r => (rk r, rb r)) rs).*1) with (map rk rs); [done|].
+    clear. induction rs as [|x t IH]; simpl; [done|]. by f_equal. }
   assert (Hrev : list_to_map (map (fun r => (rk r, rb r)) rs) = rb <$> m).
   { apply map_eq. intros k. apply option_eq_iff. intros v.
     rewrite <- elem_of_list_to_map by done. rewrite lookup_fmap, elem_of_list_fmap. split.
@@ -517,7 +522,7 @@ Proof.
   intros [Hk Hbk Ht0 Hlw Hlr Hsw Hsr Hlo Hso Hdd]. unfold reopen.
   destruct (l_populate_spec (rows s) Hk) as [L1 L2]. destruct (s_populate_spec (rows s) Hk) as [S1 S2].
   split; simpl; try done; try apply ov_ok_empty.
-  intros t b. by rewrite lookup_empty.
+  all: try (intros t b; by rewrite lookup_empty).
 Qed.
 
 Lemma seed_key_ok (seed : list row) :
@@ -531,7 +536,7 @@ Proof.
   assert (Hk : key_ok m) by apply seed_key_ok.
   destruct (l_populate_spec m Hk) as [L1 L2]. destruct (s_populate_spec m Hk) as [S1 S2].
   split; simpl; try done; try apply ov_ok_empty.
-  intros t b. by rewrite lookup_empty.
+  all: try (intros t b; by rewrite lookup_empty).
 Qed.
 
 Lemma coh_begin s t : coh s -> is_open s (S t) = false ->
